@@ -47,6 +47,7 @@ STRENGTHENED = {
     "C02-8": "C02 buffer-boundary class: the straddling record is a fragmented put whose FIRST fragment ends at the 64 KiB buffer boundary (file ends between two fragments), with an earlier cleanly closed lifetime in front",
     "C04-7": "C04: sequential sub-check with SeekToLast inside generated transactions (own write at the greatest key); C05 caught it already",
     "C04-8": "gen: writes that put back exactly the committed bytes (toggle/restore inside a transaction); C04 sequential sub-check (map model) next to the concurrent one",
+    "C12-7": "C12 component sub-check: fat and thin files, a low CompactionRatio and MaxMemTables above the number of level-0 files, so that the size-ratio selection runs",
     "C13-4": "C13: real Replica state machine with injected transient apply failures (error state -> recovery -> new stream)",
     "C15-4": "C15: primary with a pre-history (older log files in the directory) so that the ack path's retention pass has work to do",
 }
